@@ -28,7 +28,7 @@ for fam in ('CUR', 'PCovCUR'):
 EXTRA_MODULES = ['pcovutil']      # pcovr_covariance: what it computes (own numpy model)
 RT = True
 TRUSTED = ["matrix layer: 2-D arrays as terms of an uninterpreted sort with the ring laws of matrix algebra, column-of operator, zero-matrix laws, 1x1 matrices are their trace times Id(1)",
-           "Moore-Penrose facts used for the Y orthogonalisers: A G^+ G = A and G G^+ A^T = A^T for G = A^T A are Lean theorems (gram_pinv_absorbs, gram_pinv_absorbs_left: derived from the Penrose conditions G G^+ G = G, (G^+ G)^T = G^+ G, (G G^+)^T = G G^+ that np.linalg.pinv's result satisfies; machine-checked since the third session); still assumed: A^T A A^+ = A^T; np.linalg.lstsq(A, B)[0] = A^+ B",
+           "Moore-Penrose facts used for the Y orthogonalisers: A G^+ G = A and G G^+ A^T = A^T for G = A^T A are Lean theorems (gram_pinv_absorbs, gram_pinv_absorbs_left: derived from the Penrose conditions G G^+ G = G, (G^+ G)^T = G^+ G, (G G^+)^T = G G^+ that np.linalg.pinv's result satisfies; machine-checked since the third session), and so is A^T A A^+ = A^T (gram_times_pinv, from A A^+ A = A and (A A^+)^T = A A^+); still assumed: the Penrose conditions themselves for np.linalg.pinv's result; np.linalg.lstsq(A, B)[0] = A^+ B",
            "external contracts (assumed): scipy.sparse.linalg.svds returns the k leading singular vectors of the matrix handed in (only the requested side); scipy.sparse.linalg.eigsh the k largest eigenpairs; "
            "scipy.linalg.eigh all eigenpairs, eigenvalues ascending; np.argsort a sorting permutation",
            "ghost flags of the search invariant: the picked residual slice is not numerically zero (C07 quantifies over X whose rank exceeds the number of selections) and the external routines give "
